@@ -4,8 +4,10 @@
 cd /verif
 out=/verif/mutants/RESULTS.txt
 : > "$out.tmp"
+[ -n "${MUT_FROM:-}" ] && [ -f "$out" ] && cp "$out" "$out.tmp"
 for p in mutants/${1:-}*.patch; do
   id=$(basename "$p" .patch); exp=$(cat "mutants/$id.expect")
+  if [ -n "${MUT_FROM:-}" ] && [[ "$id" < "$MUT_FROM" ]]; then continue; fi
   ids="$exp"; [ "$exp" = BENIGN ] && ids="C01 C02 C03 C07 C15 C18"
   echo "== $id (expect: $exp)" | tee -a "$out.tmp"
   MUT_TESTS=1 MUT_SCALE=${MUT_SCALE:-100} tools/run_mutant.sh "$p" $ids 2>&1 | sed 's/^/   /' | cut -c1-260 | tee -a "$out.tmp"
